@@ -35,7 +35,7 @@ SynRanges ==
   { [t |-> ts[1], s |-> ts[2], hasq |-> hq, q |-> q, pb |-> pb, pa |-> pa, ws |-> ws, lead |-> lead] :
       ts \in { <<B(cA), B(cX)>>, <<B(cA), B(STAR)>>, <<B(STAR), <<>>>> },
       hq \in BOOLEAN, q \in { Q(0, <<5>>), Q(0, <<>>), Q(1, <<0>>) },
-      pb \in { <<>>, <<Par(<<108>>, <<49>>)>>, <<Par(<<115, 113>>, <<48>>)>> },          \* l=1 ; sq=0
+      pb \in { <<>>, <<Par(<<108>>, <<34, 120, 92, 34, 121, 34>>)>>, <<Par(<<115, 113>>, <<48>>)>> },   \* l="x\"y" (quoted-pair) ; sq=0
       pa \in { <<>>, <<Par(<<101>>, <<49>>)>> },                                        \* e=1
       ws \in { <<>>, <<32>> }, lead \in BOOLEAN }
 SynPool == { r \in SynRanges : /\ (~r.hasq => (r.pa = <<>> /\ r.q = Q(0, <<5>>) /\ r.lead))   \* canonical when unused
